@@ -71,6 +71,7 @@ EUnits     == {ZOf(1,0), ZOf(-1,0), ZOf(0,1), ZOf(0,-1), ZOf(1,-1), ZOf(-1,1)}
 \* ---------------------------------------------------------------- exponents
 EZero(nv)    == IF nv = 0 THEN 0 ELSE [i \in 1..nv |-> 0]
 EAdd(nv,e,f) == IF nv = 0 THEN e + f ELSE [i \in 1..nv |-> e[i] + f[i]]
+ESub(nv,e,f) == IF nv = 0 THEN e - f ELSE [i \in 1..nv |-> e[i] - f[i]]
 ETotal(nv,e) == IF nv = 0 THEN e ELSE FoldLeft(LAMBDA a, b : a + b, 0, e)
 
 \* ---------------------------------------------------------------- generic dispatch
@@ -148,11 +149,13 @@ RMul(R, x, y) ==
              [] R.k = "G" -> GMul(x, y)
              [] R.k = "E" -> EMul(x, y)
              [] R.k = "P" ->
-                  LET Pairs == (DOMAIN x) \X (DOMAIN y)
-                      E == {EAdd(R.nv, p[1], p[2]) : p \in Pairs}
-                      s == [e \in E |->
-                              RSumSeq(R.b, LET ps == SetToSeq({p \in Pairs : EAdd(R.nv, p[1], p[2]) = e})
-                                           IN [i \in 1..Len(ps) |-> RMul(R.b, x[ps[i][1]], y[ps[i][2]])])]
+                  \* coefficient of e = sum over the d in supp(x) with e - d in supp(y) of x[d] * y[e-d]
+                  LET Dx == DOMAIN x
+                      Dy == DOMAIN y
+                      E  == {EAdd(R.nv, p[1], p[2]) : p \in Dx \X Dy}
+                      s  == [e \in E |->
+                              RSumSeq(R.b, LET ds == SetToSeq({d \in Dx : ESub(R.nv, e, d) \in Dy})
+                                           IN [i \in 1..Len(ds) |-> RMul(R.b, x[ds[i]], y[ESub(R.nv, e, ds[i])])])]
                   IN PClean(R, E, s)
 
 RSub(R, x, y) == RAdd(R, x, RNeg(R, y))
